@@ -4,7 +4,6 @@
 package config
 
 import (
-	"bytes"
 	"context"
 	"fmt"
 	"io"
@@ -23,7 +22,10 @@ import (
 
 type (
 	configFiles struct {
-		byPath map[string]io.Reader
+		// byPath holds the latest content of every file. The content is kept
+		// as bytes (not as the reader it was received in) because every change
+		// re-parses all files, and a reader can only be read once.
+		byPath map[string][]byte
 		sync.Mutex
 	}
 
@@ -49,7 +51,7 @@ func newOPLConfigWatcher(ctx context.Context, c *Config, target string) (*oplCon
 	nw := &oplConfigWatcher{
 		logger:                 c.l,
 		target:                 target,
-		files:                  configFiles{byPath: make(map[string]io.Reader)},
+		files:                  configFiles{byPath: make(map[string][]byte)},
 		memoryNamespaceManager: *NewMemoryNamespaceManager(),
 	}
 
@@ -66,13 +68,13 @@ func newOPLConfigWatcher(ctx context.Context, c *Config, target string) (*oplCon
 		if err != nil {
 			return nil, err
 		}
-		nw.files.byPath[targetUrl.String()] = file
+		nw.files.byPath[targetUrl.String()] = file.Bytes()
 		nw.parseFiles()
 		return nw, err
 	case "http", "https":
-		var file io.Reader
+		var file []byte
 		if item, ok := cache.Get(target); ok {
-			file = bytes.NewReader(item)
+			file = item
 		} else {
 			buf, err := c.Fetcher().FetchContext(ctx, target)
 			if err != nil {
@@ -80,7 +82,7 @@ func newOPLConfigWatcher(ctx context.Context, c *Config, target string) (*oplCon
 			}
 			b := buf.Bytes()
 			cache.SetWithTTL(target, b, int64(cap(b)), 30*time.Minute)
-			file = bytes.NewReader(b)
+			file = b
 		}
 		nw.files.byPath[targetUrl.String()] = file
 		nw.parseFiles()
@@ -93,9 +95,16 @@ func newOPLConfigWatcher(ctx context.Context, c *Config, target string) (*oplCon
 func (nw *oplConfigWatcher) handleChange(e *watcherx.ChangeEvent) {
 	// the lock is acquired before parsing to ensure that the getters are
 	// waiting for the updated values
+	content, err := io.ReadAll(e.Reader())
+	if err != nil {
+		nw.logger.
+			WithError(err).
+			Errorf("Failed to read OPL config file %s at target %s.", e.Source(), nw.target)
+		return
+	}
 	nw.files.Lock()
 	defer nw.files.Unlock()
-	nw.files.byPath[e.Source()] = e.Reader()
+	nw.files.byPath[e.Source()] = content
 	nw.parseFiles()
 }
 
@@ -122,12 +131,7 @@ func (nw *oplConfigWatcher) parseFiles() {
 		namespaces = make([]*namespace.Namespace, 0)
 		errs       []error
 	)
-	for _, reader := range nw.files.byPath {
-		content, err := io.ReadAll(reader)
-		if err != nil {
-			errs = append(errs, err)
-			continue
-		}
+	for _, content := range nw.files.byPath {
 		nn, ee := schema.Parse(string(content))
 		for _, e := range ee {
 			errs = append(errs, e)
